@@ -21,6 +21,7 @@
 //! encoder produced is a violation.
 use crate::gen::{clone_create_set, Gen};
 use binary_stream::futures::{Decodable, Encodable};
+use futures::FutureExt;
 use secrecy::ExposeSecret;
 use serde_json::json;
 use sos_core::{
@@ -172,13 +173,7 @@ fn eq_user_data(a: &UserData, b: &UserData) -> Cmp {
     for (x, y) in a.fields().iter().zip(b.fields()) {
         // the signature names the shape of the failing field, not how
         // deeply the custom field was nested
-        eq_secret_row(x, y).map_err(|f| {
-            if f.starts_with("custom_field.") {
-                f
-            } else {
-                format!("custom_field.{f}")
-            }
-        })?;
+        eq_secret_row(x, y)?;
     }
     eq_plain(&a.comment(), &b.comment(), "user_data.comment")?;
     eq_plain(
@@ -191,7 +186,7 @@ fn eq_user_data(a: &UserData, b: &UserData) -> Cmp {
 pub fn eq_secret_row(a: &SecretRow, b: &SecretRow) -> Cmp {
     eq_plain(a.id(), b.id(), "id")?;
     eq_secret_meta(a.meta(), b.meta()).map_err(|f| format!("meta.{f}"))?;
-    eq_secret(a.secret(), b.secret()).map_err(|f| format!("secret.{f}"))
+    eq_secret(a.secret(), b.secret())
 }
 
 fn eq_signer(a: &SecretSigner, b: &SecretSigner) -> Cmp {
@@ -552,16 +547,18 @@ fn eq_sync_status(a: &SyncStatus, b: &SyncStatus) -> Cmp {
 
 struct Ctx<'a> {
     rep: &'a mut Reporter,
-    samples: usize,
+    samples: Vec<String>,
     /// values handled so far (all formats)
     values: u64,
 }
 
 impl Ctx<'_> {
     fn sample(&mut self, ty: &str, format: &str, dbg: &str, len: usize) {
-        // a few real cases, of different types
-        if self.samples < 3 && (dbg.len() > 40 || self.samples > 0) {
-            self.samples += 1;
+        // three real cases of different types: a vault, a secret and a
+        // wire message
+        let wanted = ["Vault", "Secret", "SyncPacket"];
+        if wanted.contains(&ty) && !self.samples.iter().any(|s| s == ty) && len > 60 {
+            self.samples.push(ty.to_string());
             self.rep.sample(json!({"type": ty, "format": format, "value": trunc(dbg, 300), "encoded_len": len}));
         }
     }
@@ -615,10 +612,15 @@ async fn check_bin<T>(
         }
     }
     // (1) decode(encode(v)) == v
-    let d: T = match decode::<T>(&e1).await {
-        Ok(d) => d,
-        Err(e) => {
+    let d: T = match AssertUnwindSafe(decode::<T>(&e1)).catch_unwind().await {
+        Ok(Ok(d)) => d,
+        Ok(Err(e)) => {
             cx.rep.violation(&format!("C14:{ty}:decode_error"), &format!("decode::<{ty}> rejected bytes produced by encode: {e}"), replay("decode"));
+            return;
+        }
+        Err(_) => {
+            let (loc, msg) = crate::c15::take_panics().into_iter().next().unwrap_or_default();
+            cx.rep.violation(&format!("C14:{ty}:decode_panic:{loc}"), &format!("decode::<{ty}> panicked at {loc} on bytes produced by encode: {msg}"), replay("decode"));
             return;
         }
     };
@@ -959,6 +961,7 @@ type _Aliases = (
 pub fn run(args: &Args, rep: &mut Reporter) {
     // a decoder panic must not take the worker down: it is a violation of
     // the round-trip property (and of C15), reported with its location
+    crate::c15::install_panic_hook();
     let rt = tokio::runtime::Builder::new_current_thread().enable_all().build().unwrap();
     let total = args.by_tier(20_000u64, 2_000_000u64);
     let per_shard = total / args.shards.max(1) as u64 + 1;
@@ -988,7 +991,7 @@ pub fn run(args: &Args, rep: &mut Reporter) {
                 cipher: enc_or_empty(&Cipher::default()).await,
                 kdf: enc_or_empty(&KeyDerivation::default()).await,
             };
-            let mut cx = Ctx { rep, samples: 0, values: 0 };
+            let mut cx = Ctx { rep, samples: vec![], values: 0 };
             let mut rounds = 0u64;
             while cx.values < per_shard {
                 one_round(&mut g, &mut cx, &t, 1).await;
@@ -1002,7 +1005,8 @@ pub fn run(args: &Args, rep: &mut Reporter) {
     g.flush(rep);
     if let Err(p) = res {
         let msg = p.downcast_ref::<String>().cloned().or_else(|| p.downcast_ref::<&str>().map(|s| s.to_string())).unwrap_or_default();
-        rep.violation("C14:panic", &format!("encode/decode of a generated value panicked: {msg}"), json!({"panic": msg}));
+        let (loc, _) = crate::c15::take_panics().into_iter().next().unwrap_or_default();
+        rep.violation(&format!("C14:panic:{loc}"), &format!("encode/decode of a generated value panicked at {loc}: {msg}"), json!({"panic": msg, "location": loc}));
     }
     rep.set_extra("budget", json!({"values_total": total, "values_this_shard": per_shard}));
 }
